@@ -867,6 +867,85 @@ theorem rl_eof_and_errors_pass_through (r : RLC) (now buf : Nat) (code : Option 
         dsimp only; rw [hid]
         unfold Reader.blocked; rw [hs]; simp; omega
 
+/-! ## 7. The service: every connection works with the latest limit -/
+
+/-- Operations on the service, in any interleaving. -/
+inductive SvcOp where
+  | set (c : Option Cfg)
+  | connect (id now : Nat)
+  | disconnect (id : Nat)
+
+def Service.step (s : Service) : SvcOp → Service
+  | .set c => s.set c
+  | .connect id now => (s.connect id now).getD s     -- a refused connection changes nothing
+  | .disconnect id => s.disconnect id
+
+def Service.run (s : Service) : List SvcOp → Service
+  | [] => s
+  | op :: rest => Service.run (s.step op) rest
+
+/-- The limit most recently passed to `set_client_rate_limit` (or the initial one). -/
+def lastSet (c0 : Option Cfg) : List SvcOp → Option Cfg
+  | [] => c0
+  | .set c :: rest => lastSet c rest
+  | _ :: rest => lastSet c0 rest
+
+/-- The cell always holds the latest limit — whether or not any client was connected when it
+was set. -/
+theorem stored_is_latest (s : Service) (ops : List SvcOp) :
+    (s.run ops).stored = lastSet s.stored ops := by
+  induction ops generalizing s with
+  | nil => rfl
+  | cons op rest ih =>
+    simp only [Service.run]
+    rw [ih]
+    cases op with
+    | set c => rfl
+    | connect id now =>
+      simp only [Service.step, lastSet]
+      unfold Service.connect
+      cases RL.fromWatcher s.stored now <;> rfl
+    | disconnect id => rfl
+
+/-- **A new connection gets the latest limit.**  After any interleaving of `set` / `connect` /
+`disconnect` (in particular a `set` while no client is connected), a connection accepted at
+`now` is refused iff the latest limit is invalid, and otherwise its limiter is exactly
+`RateLimited::from_watcher` of the latest limit: no limit if that is `None`, else a full
+bucket with that limit's burst and refill, created at `now`, nothing pending. -/
+theorem new_connection_gets_latest_limit (c0 : Option Cfg) (ops : List SvcOp) (id now : Nat)
+    (hok : ∀ c, lastSet c0 ops = some c → CfgOK c) :
+    match ((Service.new c0).run ops).connect id now with
+    | none => fromConfig (lastSet c0 ops) now = none
+    | some s' => ∃ r, s'.conns.find? (fun c => c.1 == id) = some (id, r) ∧
+        RL.fromWatcher (lastSet c0 ops) now = some r ∧ r.pendingCfg = none ∧ r.sleepUntil = none ∧
+        (lastSet c0 ops = none → r.bucket = none) ∧
+        (∀ c, lastSet c0 ops = some c → ∃ b, r.bucket = some b ∧ b.fill = b.max ∧ b.lastFill = now ∧
+          b.max = c.burstBytes ∧ b.refill = c.refillBytes ∧ b.period = relayPeriodMs) := by
+  have hst : ((Service.new c0).run ops).stored = lastSet c0 ops := stored_is_latest (Service.new c0) ops
+  unfold Service.connect
+  rw [hst]
+  unfold RL.fromWatcher
+  cases hf : fromConfig (lastSet c0 ops) now with
+  | none => simp only
+  | some bk =>
+    simp only
+    refine ⟨⟨bk, none, none, 0, 0⟩, by simp, rfl, rfl, rfl, ?_, ?_⟩
+    · intro hn
+      exact (fromConfig_spec _ hok now bk hf).1 hn
+    · intro c hc
+      obtain ⟨b, hb, -, f1, f2, f3, f4, f5⟩ := (fromConfig_spec _ hok now bk hf).2 c hc
+      exact ⟨b, hb, f1, f2, f4, f5, f3⟩
+
+/-- **A live update reaches every connected client**: after `set c` every live limiter has `c`
+pending, so (`reconfig_resets`) its next poll installs it if valid and ignores it otherwise. -/
+theorem live_update_reaches_every_connection (s : Service) (c : Option Cfg) (id : Nat) (r : RL)
+    (h : (id, r) ∈ (s.set c).conns) : r.pendingCfg = some c := by
+  unfold Service.set at h
+  simp only [List.mem_map] at h
+  obtain ⟨⟨id', r'⟩, -, he⟩ := h
+  cases he
+  rfl
+
 /-! ## 5. Non-vacuity -/
 
 -- the relay's default 100 ms bucket at 1000 B/s: burst 100, refill 100 per period
@@ -897,5 +976,10 @@ example : (⟨⟨some ⟨-46, 100, 0, 100, 100⟩, some 100, none, 1, 0⟩, ⟨[
     some (⟨⟨some ⟨-46, 100, 0, 100, 100⟩, some 100, none, 1, 0⟩, ⟨[], .err 2⟩⟩, .pending) := by decide
 example : ((⟨⟨some ⟨-46, 100, 0, 100, 100⟩, some 100, none, 1, 0⟩, ⟨[], .err 2⟩⟩ : RLC).poll 100 8).map (·.2) =
     some (.err 2) := by decide
+
+-- the seeded scenario: limit set while nobody is connected, then a client connects
+example : (((Service.new none).run [.set (some ⟨1000, none⟩)]).connect 7 50).map (·.conns) =
+    some [(7, ⟨some ⟨100, 100, 50, 100, 100⟩, none, none, 0, 0⟩)] := by decide
+example : lastSet none [.connect 1 0, .disconnect 1, .set (some ⟨1000, none⟩), .connect 2 9] = some ⟨1000, none⟩ := rfl
 
 end IrohModel.C09
